@@ -37,13 +37,17 @@ func (d Dialector) RollbackTo(tx *gorm.DB, name string) error {
 
 // Clock is the simulated clock behind Config.NowFunc.
 type Clock struct {
-	n    int64
-	Base time.Time
+	n     int64
+	Base  time.Time
+	Fixed bool // always return Base (multi-task runs: stored timestamps must not depend on the interleaving)
 }
 
 //go:norace
 func (c *Clock) Now() time.Time {
 	c.n++
+	if c.Fixed {
+		return c.Base
+	}
 	return c.Base.Add(time.Duration(c.n) * time.Second)
 }
 
@@ -57,6 +61,7 @@ type Options struct {
 	FullSaveAssociations     bool
 	File                     bool // WAL file database (multi-task runs) instead of shared-cache memory
 	NoFixture                bool
+	FixedClock               bool
 	// WrapPool, when set, receives the *sql.DB and returns the ConnPool gorm is given.
 	WrapPool func(*sql.DB, *simdrv.Sim) gorm.ConnPool
 	Namer    schema.Namer
@@ -121,7 +126,7 @@ func Open(o Options) (*Env, error) {
 	if err != nil {
 		return nil, fmt.Errorf("schema: %w", err)
 	}
-	e := &Env{Clock: &Clock{Base: time.Date(2024, 1, 1, 0, 0, 0, 0, time.UTC)}}
+	e := &Env{Clock: &Clock{Base: time.Date(2024, 1, 1, 0, 0, 0, 0, time.UTC), Fixed: o.FixedClock}}
 	n := atomic.AddInt64(&dbSeq, 1)
 	var dsn string
 	if o.File {
